@@ -262,15 +262,38 @@ def _r2(run, prog, inst, mods):
             run.fail('C08-R2', 'cherab.core.utility.conversion|%s|factor' % cname, cm.relpath, 0, '%s.conversion_factor is %s, expected %g' % (cname, got, val))
     base = cm.classes.get('BaseFactorConversion')
     run.subject('C08-R2')
-    okb = False
+    okb, why = None, 'class BaseFactorConversion not found'
     if base is not None:
+        from ..inline import propagate
+        from ..algebra import SymEval, L
         fs = {f.name: f for f in base.body if isinstance(f, ast.FunctionDef)}
-        rt = lambda f: [norm(r.value) for r in ast.walk(f) if isinstance(r, ast.Return)]
-        okb = 'to' in fs and 'inv' in fs and rt(fs['to']) == ['x * cls.conversion_factor'] and rt(fs['inv']) == ['x / cls.conversion_factor']
+
+        def value(f):
+            """the returned value as an exact rational expression in the argument and the class factor (locals resolved)"""
+            g = propagate(f)
+            rets = [r for r in ast.walk(g) if isinstance(r, ast.Return) and r.value is not None]
+            if len(rets) != 1:
+                return None
+            try:
+                return SymEval().ev(rets[0].value)
+            except Exception:
+                return None
+        if 'to' in fs and 'inv' in fs:
+            arg = lambda f: L(f.args.args[-1].arg)
+            fac = L('cls.conversion_factor')
+            vt, vi = value(fs['to']), value(fs['inv'])
+            if vt is None or vi is None or any(l.startswith('?') for v in (vt, vi) for l in v.leaves()):
+                why = 'to / inv not in a recognised arithmetic form'
+            else:
+                okb = vt.eq(arg(fs['to']) * fac) and vi.eq(arg(fs['inv']) / fac)
+                why = 'to = %s, inv = %s' % (vt.key()[:40], vi.key()[:40])
     if okb:
         run.ok('C08-R2', 'BaseFactorConversion', 'to = x * factor, inv = x / factor', sample=False)
+    elif okb is None:
+        run.undecided('C08-R2', 'BaseFactorConversion', why)
     else:
-        run.fail('C08-R2', 'cherab.core.utility.conversion|BaseFactorConversion|to-inv', cm.relpath, 0, 'BaseFactorConversion.to / inv are not multiply / divide by the factor')
+        run.fail('C08-R2', 'cherab.core.utility.conversion|BaseFactorConversion|to-inv', cm.relpath, 0,
+                 'BaseFactorConversion.to / inv are not multiply / divide by the factor: ' + why)
     # ADF11 notation converter
     nf = inst.functions.get('_notation_adf11_adas2cherab')
     if nf is None:
@@ -1170,6 +1193,8 @@ _A22 = PD + 'adf22.py'
 _UT = PD + 'utility.py'
 _IN = 'cherab/openadas/install.py'
 MUTANTS = [
+    dict(name='base-conversion-inverse-multiplies', file='cherab/core/utility/conversion.py',
+         find="        return x / cls.conversion_factor\n", replace="        return x * cls.conversion_factor\n", occurrence=0, of=1, expect='C08-R2'),
     dict(name='adf11-z1-single-digit-capture', file='cherab/openadas/parse/adf11.py',
          find='                z1_pos = re.search(r"Z1\\s*=*\\s*[0-9]+\\s*", lines[i]).group()  # get Z1 part\n                ion_charge = int(re.sub(r"Z1[\\s*=]", "", z1_pos))',
          replace='                ion_charge = int(re.search(r"Z1\\s*=*\\s*([0-9])", lines[i]).group(1))', expect='C08-R7'),
